@@ -24,6 +24,13 @@ L >= rho*M - (t + 1) with t = number of off-diagonal pairs tied at the selected
 value.  The shortfall bound is only claimed without distance damping (the
 quantile is taken from the undamped similarities).
 
+Directed Hilbert networks are the documented exception to the pure rule: their
+adjacency is the rule times (phase_shift > 0).  The inherited setters
+re-threshold without that factor (observed, counted under the label
+``hilbert_directed_setter_drops_phase_direction``); since the property does not
+say whether the direction factor has to survive a setter, either reading is
+accepted after a setter on a directed Hilbert network and nothing is alarmed.
+
 After a ``set_link_density`` step the model adopts the *reported* threshold, so
 that a wrong quantile shows up under the density clauses only and the
 consistency clauses keep testing "reported threshold <-> adjacency <-> n_links
@@ -582,7 +589,10 @@ def oracle_derived(case, rec):
     # domain: the similarity estimators need non-constant anomalies; an event
     # matrix must contain both 0 and 1 (documented IOError otherwise)
     if cls == "event_series":
-        if len(set(case["data"])) != 2:
+        ev = np.array(case["data"]).reshape(case["T"], case["n"])
+        # ... and every series needs an event (ES/ECA of an empty event
+        # series is C16's business, not the thresholding's)
+        if len(set(case["data"])) != 2 or (ev.sum(axis=0) == 0).any():
             rec.label("degenerate_data_skipped")
             return
     elif _anomaly_degenerate(case, "data", case["n"]) or (
